@@ -5,8 +5,10 @@ from __future__ import annotations
 G = {
     'g1': "@@grammar :: One\nstart::Foo = x:'a' {'b'} ;\n",
     'g2': "@@grammar :: Two\nstart::Bar = y:/[a-z]+/ ['b'] ;\n",
+    # a rule type named like a class of the grammar-model library itself
+    'g3': "@@grammar :: Three\nstart::Token = z:'a' {'c'} ;\n",
 }
-TEXT = {'g1': 'a b', 'g2': 'abc b'}
+TEXT = {'g1': 'a b', 'g2': 'abc b', 'g3': 'a c'}
 
 _sems = {}
 
@@ -33,19 +35,19 @@ def fingerprint(result):
     if isinstance(result, str) and 'class ' in result and 'Parser' in result:
         import re
         m = re.search(r'class (\w+)Parser', result)
-        g = 'g1' if "'a'" in result and 'x' in result and 'Foo' in result else 'g2'
+        g = 'g1' if 'Foo' in result else ('g3' if "'c'" in result and 'Token' in result and 'z' in result else 'g2')
         return {'k': 'source', 'g': g, 'name': m.group(1) if m else '?'}, {'sha1': hashlib.sha1(result.encode()).hexdigest()}
     if isinstance(result, tuple) and len(result) == 2 and isinstance(result[0], str) and result[0].startswith('s'):
         inner = result[1]
-        g = 'g1' if isinstance(inner, dict) and 'x' in inner else 'g2'
+        g = ('g1' if 'x' in inner else 'g3' if 'z' in inner else 'g2') if isinstance(inner, dict) else 'g2'
         return {'k': 'parse', 'g': g, 'sem': result[0]}, {'sem': result[0], 'v': repr(sorted(inner.items())) if isinstance(inner, dict) else repr(inner)}
     tname = type(result).__name__
-    if tname in ('Foo', 'Bar'):
-        g = 'g1' if tname == 'Foo' else 'g2'
-        attrs = {k: repr(getattr(result, k, None)) for k in ('x', 'y')}
+    if tname in ('Foo', 'Bar', 'Token') and hasattr(result, 'parseinfo'):
+        g = {'Foo': 'g1', 'Bar': 'g2', 'Token': 'g3'}[tname]
+        attrs = {k: repr(getattr(result, k, None)) for k in ('x', 'y', 'z')}
         return {'k': 'parse', 'g': g, 'sem': 'builder'}, {'node': tname, 'attrs': attrs}
     if hasattr(result, 'items'):
-        g = 'g1' if 'x' in result else 'g2'
+        g = 'g1' if 'x' in result else ('g3' if 'z' in result else 'g2')
         return {'k': 'parse', 'g': g, 'sem': 'none'}, {'ast': repr(sorted((k, v) for k, v in result.items() if 'parseinfo' not in k))}
     return {'k': '?', 'type': tname}, {'repr': repr(result)[:200]}
 
@@ -80,6 +82,11 @@ def do_call(c, handles):
         if op == 'source':
             kw = {'name': c['name']} if c['name'] != 'none' else {}
             return fingerprint(tatsu.to_python_sourcecode(G[c['g']], **kw))
+        if op == 'load':
+            import json as _json
+            from tatsu.peg import Grammar
+            js = _json.dumps(tatsu.compile(G[c['g']]).asjson())          # the JSON text (produced here; loading is what is observed)
+            return fingerprint(Grammar.load(_json.loads(js)).parse(TEXT[c['g']]))
         if op in ('modelparse', 'failedparse'):
             m, cc = handles[c['h'] - 1]
             text = TEXT[cc['g']] if op == 'modelparse' else '%% nonsense'
